@@ -667,6 +667,11 @@ func (p *Prog) canonD(v ssa.Value, d int) string {
 		}
 		return fmt.Sprintf("%s@%s:%d(%s)", name, p.Name(x.Parent()), x.Pos(), strings.Join(as, ","))
 	case *ssa.Extract:
+		if cl, ok := x.Tuple.(*ssa.Call); ok {
+			if s, ok := p.canonThroughHelper(cl, x.Index, d); ok {
+				return s
+			}
+		}
 		return p.canonD(x.Tuple, d+1) + "#" + fmt.Sprint(x.Index)
 	case *ssa.FieldAddr:
 		return p.canonD(x.X, d+1) + "." + fieldName(x.X.Type(), x.Field)
@@ -674,6 +679,14 @@ func (p *Prog) canonD(v ssa.Value, d int) string {
 		return p.canonD(x.X, d+1) + "." + fieldName(x.X.Type(), x.Field)
 	case *ssa.UnOp:
 		if x.Op == token.MUL {
+			// field of a local struct that is a plain copy of one value (data := decode(...); data.ID): the field of that value
+			if fa, ok := x.X.(*ssa.FieldAddr); ok {
+				if al, ok := fa.X.(*ssa.Alloc); ok {
+					if w := plainCopyOf(al); w != nil {
+						return p.canonD(w, d+1) + "." + fieldName(fa.X.Type(), fa.Field)
+					}
+				}
+			}
 			return "*" + p.canonD(x.X, d+1)
 		}
 		return x.Op.String() + p.canonD(x.X, d+1)
@@ -701,6 +714,96 @@ func (p *Prog) canonD(v ssa.Value, d int) string {
 		return fmt.Sprintf("iter:%s", v.Name())
 	}
 	return fmt.Sprintf("%T:%s", v, v.Name())
+}
+
+// canonThroughHelper: result idx of a call to a private (non-anchor) module helper that hands back the same value on
+// every return that is not a definite failure (decodeDependsLink returning the payload it decoded) is that value,
+// with the helper's parameters bound to the call's arguments.
+func (p *Prog) canonThroughHelper(cl *ssa.Call, idx int, d int) (string, bool) {
+	h := cl.Call.StaticCallee()
+	if h == nil || h.Blocks == nil || !p.InModule(h) || p.opaque[h] || d > 8 || len(p.callers[h]) > 4 {
+		return "", false
+	}
+	var same ssa.Value
+	for _, r := range returnsOf(h) {
+		if r.Block().Comment == "recover" || idx >= len(r.Results) {
+			return "", false
+		}
+		// skip returns that definitely fail (last result a fresh/tested non-nil error)
+		last := returnedValue(r, len(r.Results)-1)
+		if isErrorType(r.Results[len(r.Results)-1]) && !isNilConst(last) {
+			continue
+		}
+		v := resolve(returnedValue(r, idx))
+		if same == nil {
+			same = v
+		} else if same != v {
+			return "", false
+		}
+	}
+	if same == nil {
+		return "", false
+	}
+	switch same.(type) {
+	case *ssa.Const, *ssa.Phi:
+		return "", false
+	}
+	e := env{}
+	outer := p.canonEnv
+	if outer == nil {
+		outer = curEnv
+	}
+	for k, v := range outer {
+		e[k] = v
+	}
+	for i, prm := range h.Params {
+		if i < len(cl.Call.Args) {
+			e[prm] = resolveEnv(cl.Call.Args[i], outer)
+		}
+	}
+	old := p.canonEnv
+	p.canonEnv = e
+	defer func() { p.canonEnv = old }()
+	return p.canonD(same, d+1), true
+}
+
+// plainCopyOf: the struct local is written exactly once, as a whole, never through a field, and its address does not
+// escape: it is a name for the stored value.
+func plainCopyOf(al *ssa.Alloc) ssa.Value {
+	refs := al.Referrers()
+	if refs == nil {
+		return nil
+	}
+	var w ssa.Value
+	for _, r := range *refs {
+		switch y := r.(type) {
+		case *ssa.Store:
+			if y.Addr != ssa.Value(al) || w != nil {
+				return nil
+			}
+			w = y.Val
+		case *ssa.FieldAddr:
+			if y.Referrers() != nil {
+				for _, u := range *y.Referrers() {
+					switch u.(type) {
+					case *ssa.UnOp, *ssa.DebugRef:
+					default:
+						return nil
+					}
+				}
+			}
+		case *ssa.UnOp, *ssa.DebugRef:
+		default:
+			return nil
+		}
+	}
+	if w == nil {
+		return nil
+	}
+	if _, isConst := w.(*ssa.Const); isConst {
+		return nil
+	}
+	return w
 }
 
 func fieldName(t types.Type, i int) string {
